@@ -1,7 +1,7 @@
 """C20 - cooling models stay inside their physical envelope (half-space and linear families; see DESIGN.md for the parts that are not applicable)."""
 import C05
 def ob(id, entry, cases, expect, bounds, tus, **kw):
-    d = dict(id=id, harness=tus[0], entry=entry, mode='real', cases=cases, expect=expect, bounds=bounds, tus=tus, stubs=C05.STO, native=False,
+    d = dict(id=id, harness=tus[0], entry=entry, mode='real', cases=cases, expect=expect, bounds=bounds, tus=tus, stubs=C05.STO, native=True,
              assumes=['exact-real reading; erfc/sqrt/exp uninterpreted with: 0<erfc<2, erfc(x)<=1 for x>=0, erfc decreasing, sqrt increasing, exp>0 (instances for the arguments occurring on the path)',
                       'physically ordered end members: 0 <= top <= bottom temperature, operation replace'], outside=['plate-model Fourier series bounds', 'mass-conserving and slab plate-model envelopes', 'rounding'])
     d.update(kw); return d
